@@ -11,14 +11,15 @@ CONSTANTS
   AllowSat = TRUE
   BumpDen = 2
   InitClkEpochs = {0, 1}
-  MaxLen = 4
-  RawMags <- RawMagsOne
+  MaxLen = 3
+  RawMags <- RawMagsFull
   StepUsesDoubleInv = FALSE
   DurationWraps = FALSE
   Jumps <- JumpsSmall
   StepAt = {1, 2, 3}
-  MaxInDo = 0
-  ReadsNowFirst = FALSE
+  MaxInDo = 1
+  ReadsNowFirst = TRUE
   StepDen = 4
-VIEW ViewGen
-INVARIANTS Emit
+VIEW ViewCore
+INVARIANTS TypeOK
+PROPERTIES C19WaitStep
